@@ -37,12 +37,35 @@ type Activity struct {
 	// TrimRace: spend low-denomination outputs exactly in the block that trims them
 	TrimRace bool
 	created  map[string]uint64 // outpoint -> zone height of the block whose Qi tx created it
+	// Owner: the miner pays its coinbases to this lockup owner contract (deployed by the first Traffic call);
+	// Shares: own work shares ground on every pending header, so blocks carry several coinbases of the miner
+	Owner       *OwnerContract
+	Shares      int
+	ownerSent   bool
+	SharesFound int
 }
 
 // NewActivity creates a wallet (nQuai, nQi keys), funds the Quai keys at
 // genesis and starts a Net whose miner coinbases are wallet keys.
 func NewActivity(r *rand.Rand, opts Options) (*Activity, error) {
+	return newActivity(r, opts, 0, 0, false)
+}
+
+// NewActivityLockup is NewActivity with the miner's Quai coinbases paid into
+// lockup records (lockup byte lockByte) held by an owner contract, and shares
+// own work shares per block.
+func NewActivityLockup(r *rand.Rand, opts Options, lockByte uint8, shares int) (*Activity, error) {
+	return newActivity(r, opts, lockByte, shares, true)
+}
+
+func newActivity(r *rand.Rand, opts Options, lockByte uint8, shares int, owner bool) (*Activity, error) {
 	w := NewWallet(r, 4, 10)
+	var oc *OwnerContract
+	if owner {
+		oc = NewOwnerContract(w.Quai[3], 0)
+		opts.LockupContract = &oc.Addr
+		opts.CoinbaseLockup = lockByte
+	}
 	fund := new(big.Int).Mul(big.NewInt(1e18), big.NewInt(1e11))
 	opts.GenAllocs = w.GenAllocs(fund)
 	if opts.QuaiCoinbase.Equal(common.Address{}) {
@@ -56,7 +79,8 @@ func NewActivity(r *rand.Rand, opts Options) (*Activity, error) {
 		return nil, err
 	}
 	return &Activity{N: n, W: w, R: r, Submitted: map[string]int{}, Refused: map[string]int{}, LastErr: map[string]string{},
-		inFlight: map[string]int{}, QuaiPerStep: 2, ConvEvery: 4, QiPerStep: 2, QiSent: map[common.Hash]*types.Transaction{}, created: map[string]uint64{}}, nil
+		inFlight: map[string]int{}, QuaiPerStep: 2, ConvEvery: 4, QiPerStep: 2, QiSent: map[common.Hash]*types.Transaction{}, created: map[string]uint64{},
+		Owner: oc, Shares: shares}, nil
 }
 
 func (a *Activity) submit(kind string, tx *types.Transaction) bool {
@@ -104,6 +128,13 @@ func (a *Activity) Traffic() {
 					w.SyncNonce(k, sn+uint64(pendingCount(n, ia)))
 				}
 			}
+		}
+	}
+	if a.Owner != nil && !a.ownerSent {
+		// first transaction of the deployer key (nonce 0)
+		if tx, err := w.DeployTx(a.Owner, price); err == nil && a.submit("deploy-owner", tx) {
+			a.ownerSent = true
+			w.SyncNonce(a.Owner.Deployer, a.Owner.Nonce+1)
 		}
 	}
 	for i := 0; i < a.QuaiPerStep; i++ {
@@ -265,7 +296,27 @@ func (a *Activity) buildQiSpend(ins []Utxo, kind *string) (*types.Transaction, e
 func (a *Activity) Step(o MineOpts) (*Mined, error) {
 	a.Traffic()
 	o.Fill = true
-	m, err := a.N.Mine(o)
+	var m *Mined
+	var err error
+	if a.Shares > 0 && !o.NoAppend {
+		heads := a.N.Heads()
+		if o.Heads != nil {
+			heads = *o.Heads
+		}
+		var wo *types.WorkObject
+		if wo, err = a.N.BuildPending(heads, true); err == nil && wo != nil {
+			if wo.NumberU64(2) >= 2 {
+				a.SharesFound += a.N.GrindOwnShares(wo, a.Shares, a.R)
+			}
+			if _, err = a.N.Seal(wo, o.WantOrder, o.MaxOrder); err == nil {
+				m, err = a.N.Submit(wo)
+			}
+		} else if err == nil {
+			err = fmt.Errorf("nil pending header")
+		}
+	} else {
+		m, err = a.N.Mine(o)
+	}
 	if err == nil && m != nil && m.Blocks[2] != nil {
 		for _, tx := range m.Blocks[2].Transactions() {
 			if tx.Type() == types.QiTxType {
